@@ -5,6 +5,7 @@ import (
 	"flag"
 	"fmt"
 	"os"
+	"os/exec"
 	"path/filepath"
 	"regexp"
 	"sort"
@@ -133,7 +134,8 @@ func cmdCheck(args []string) {
 	results := map[string]*vc.FuncResult{}
 	type viol struct {
 		id, what string
-		o      *vc.Obligation
+		o        *vc.Obligation
+		bounded  *boundedResult
 	}
 	var viols []viol
 	usedContracts := map[string]bool{}
@@ -161,6 +163,12 @@ func cmdCheck(args []string) {
 		}
 	}
 	genSecs := time.Since(genT0).Seconds()
+	bounded := runBounded(*repo, *verif, *prop, *tier)
+	for _, b := range bounded {
+		if !b.Passed {
+			viols = append(viols, viol{id: "bounded." + b.Name, what: "bounded stand-in failed (executable check of the real code, bound: " + b.Bound + "): " + b.FirstFailure, bounded: b})
+		}
+	}
 	if len(obls) == 0 && len(viols) == 0 {
 		// vacuity guard: a property without a single generated obligation is not checked at all
 		fmt.Fprintf(os.Stderr, "property %s: no obligations generated (no contract clause carries this tag)\n", *prop)
@@ -241,6 +249,18 @@ func cmdCheck(args []string) {
 			continue
 		}
 		nviol++
+		if v.bounded != nil {
+			rp := filepath.Join(*verif, "replays", *prop+"-"+safeName(v.id)+".json")
+			rf := replayFile{Property: *prop, Obligation: v.id, Class: "bounded", Clause: v.what}
+			rf.Replay.Attempted, rf.Replay.Confirmed = true, true
+			rf.Replay.Reason = "the bounded executable check fails on the real code; re-run with: " + v.bounded.Cmd
+			rf.Replay.Output = v.bounded.Output
+			b, _ := json.MarshalIndent(rf, "", " ")
+			os.WriteFile(rp, b, 0o644)
+			fmt.Printf("VIOLATION property=%s replay=%s\n", *prop, rp)
+			fmt.Printf("  %s: %s\n", v.id, v.what)
+			continue
+		}
 		rp, confirmed := writeReplay(w, *repo, *verif, *prop, v.id, v.what, v.o, results)
 		suffix := ""
 		if !confirmed {
@@ -312,8 +332,9 @@ func cmdCheck(args []string) {
 			"loops_without_variant": dedupStrs(noTerm), "explicit_assumes": assumes, "expected_clause_obligations": len(expected),
 			"known_findings_hit": knownHit, "samples": samples,
 			"evaluations": len(obls), "distinct_nontrivial": discharged,
-			"rule": "one SMT query per generated obligation; an obligation is non-trivial when its goal is not syntactically true (all generated obligations are)",
-			"explanation": explanation,
+			"rule":             "one SMT query per generated obligation; an obligation is non-trivial when its goal is not syntactically true (all generated obligations are)",
+			"explanation":      explanation,
+			"bounded_standins": boundedEvidence(bounded),
 		},
 		"assumptions": trusted,
 		"wall_s":      round3(time.Since(t0).Seconds()),
@@ -322,8 +343,8 @@ func cmdCheck(args []string) {
 	os.MkdirAll(filepath.Join(*verif, "evidence"), 0o755)
 	b, _ := json.MarshalIndent(ev, "", " ")
 	os.WriteFile(filepath.Join(*verif, "evidence", *prop+".json"), b, 0o644)
-	fmt.Printf("property %s tier %s: %d functions, %d obligations, %d discharged, %d violations, %d known findings, %.1fs\n",
-		*prop, *tier, len(fns), len(obls), discharged, nviol, len(knownHit), time.Since(t0).Seconds())
+	fmt.Printf("property %s tier %s: %d functions, %d obligations, %d discharged, %d bounded stand-ins, %d violations, %d known findings, %.1fs\n",
+		*prop, *tier, len(fns), len(obls), discharged, len(bounded), nviol, len(knownHit), time.Since(t0).Seconds())
 	os.RemoveAll(work)
 	if nviol > 0 {
 		os.Exit(1)
@@ -392,4 +413,89 @@ func writeReplay(w *vc.World, repo, verif, prop, id, what string, o *vc.Obligati
 	b, _ := json.MarshalIndent(rf, "", " ")
 	os.WriteFile(p, b, 0o644)
 	return p, confirmed
+}
+
+// ---- bounded stand-ins ----
+//
+// A bounded stand-in is an executable check of functions the VC generator cannot reach (reflect,
+// encoding/json, DivSufSort). It lives in /verif/bounded/<prop>_<name>_test.go, is compiled into the
+// package under test through a go test overlay (nothing is written to the repository) and is reported
+// as "bounded" in the evidence, never as proved.
+type boundedResult struct {
+	Name, Bound, Cmd, Output, FirstFailure string
+	Cases                                  int64
+	Passed                                 bool
+	Seconds                                float64
+}
+
+var boundedLineRe = regexp.MustCompile(`LZVC-BOUNDED name=(\S+) cases=(\d+) bound=(.*)`)
+
+func runBounded(repo, verif, prop, tier string) []*boundedResult {
+	files, _ := filepath.Glob(filepath.Join(verif, "bounded", prop+"_*_test.go"))
+	sort.Strings(files)
+	var out []*boundedResult
+	for _, f := range files {
+		src, err := os.ReadFile(f)
+		if err != nil {
+			continue
+		}
+		pkgDir := repo
+		if regexp.MustCompile(`(?m)^package suffix`).Match(src) {
+			pkgDir = filepath.Join(repo, "suffix")
+		}
+		base := strings.TrimSuffix(filepath.Base(f), "_test.go")
+		work := filepath.Join(verif, ".work", "bounded-"+base)
+		os.MkdirAll(work, 0o755)
+		ov := map[string]map[string]string{"Replace": {filepath.Join(pkgDir, "zz_lzvc_"+base+"_test.go"): f}}
+		ovb, _ := json.Marshal(ov)
+		ovf := filepath.Join(work, "overlay.json")
+		os.WriteFile(ovf, ovb, 0o644)
+		to := "120s"
+		if tier == "thorough" {
+			to = "900s"
+		}
+		args := []string{"test", "-tags", "verif", "-overlay", ovf, "-vet=off", "-count=1", "-timeout", to, "-run", "^TestBounded", "-v", "."}
+		cmd := exec.Command("go", args...)
+		cmd.Dir = pkgDir
+		cmd.Env = append(os.Environ(), "GOFLAGS=-mod=mod", "GOPROXY=off", "GOSUMDB=off", "GOTOOLCHAIN=local", "LZVC_TIER="+tier)
+		t0 := time.Now()
+		ob, _ := cmd.CombinedOutput()
+		o := string(ob)
+		r := &boundedResult{Name: base, Cmd: "cd " + pkgDir + " && LZVC_TIER=" + tier + " go " + strings.Join(args, " "), Seconds: time.Since(t0).Seconds()}
+		for _, m := range boundedLineRe.FindAllStringSubmatch(o, -1) {
+			n, _ := strconv.ParseInt(m[2], 10, 64)
+			r.Cases += n
+			if r.Bound != "" {
+				r.Bound += "; "
+			}
+			r.Bound += m[1] + ": " + strings.TrimSpace(m[3])
+		}
+		r.Passed = strings.Contains(o, "\nok ") && !strings.Contains(o, "--- FAIL") && r.Cases > 0
+		if !r.Passed {
+			for _, ln := range strings.Split(o, "\n") {
+				if strings.Contains(ln, "_test.go:") || strings.HasPrefix(ln, "panic:") || strings.Contains(ln, "--- FAIL") {
+					r.FirstFailure = strings.TrimSpace(ln)
+					break
+				}
+			}
+			if r.FirstFailure == "" {
+				r.FirstFailure = "no LZVC-BOUNDED line / build failure"
+			}
+			if len(o) > 6000 {
+				o = o[:6000]
+			}
+			r.Output = o
+		}
+		os.RemoveAll(work)
+		out = append(out, r)
+	}
+	return out
+}
+
+func boundedEvidence(bs []*boundedResult) []interface{} {
+	out := []interface{}{}
+	for _, b := range bs {
+		out = append(out, map[string]interface{}{"name": b.Name, "label": "bounded (not a proof)", "bound": b.Bound, "cases": b.Cases, "passed": b.Passed, "seconds": round3(b.Seconds)})
+	}
+	return out
 }
